@@ -215,7 +215,21 @@ func VerifC18TrustBundle() {
 			}
 		default:
 			if len(tasks) > 0 {
+				wasCached := sc.cache.GetWorkload() != nil
+				before := len(notified)
 				tasks[len(tasks)-1]() // the rotation timer of the latest certificate fires
+				rotated := wasCached && sc.cache.GetWorkload() == nil
+				// a rotation drops the cached workload certificate and tells ITS subscribers (the workload resource,
+				// whichever request happened to trigger the signing) to renew, exactly once; a stale timer tells nobody
+				if rotated {
+					vp.Reach("rotated")
+					vp.Assert(len(notified) == before+1, "rotation-announces-exactly-one-renewal")
+					if len(notified) == before+1 {
+						vp.Assert(notified[before] == security.WorkloadKeyCertResourceName, "rotation-tells-the-workload-certificate-subscribers-to-renew")
+					}
+				} else {
+					vp.Assert(len(notified) == before, "stale-rotation-timer-announces-nothing")
+				}
 			}
 		}
 	}
